@@ -89,7 +89,7 @@ func (a *Analyzer) Summary(fn *ssa.Function) *summary {
 		if !ok || fl.In[b] == nil {
 			continue
 		}
-		facts := a.Close(fl.At(ret), 3)
+		facts := fl.At(ret)
 		if post == nil {
 			post = facts.Clone()
 		} else {
@@ -128,7 +128,7 @@ func (a *Analyzer) Summary(fn *ssa.Function) *summary {
 			sf := facts.Clone()
 			if okAtom != nil {
 				sf.Add(okAtom)
-				sf = a.Close(sf, 3)
+				fl.addDerived(sf, okAtom)
 			}
 			// value equalities for the other results
 			if len(ret.Results) > 1 {
@@ -149,7 +149,7 @@ func (a *Analyzer) Summary(fn *ssa.Function) *summary {
 			ff := facts.Clone()
 			if okAtom != nil {
 				ff.Add(okAtom.Negate())
-				ff = a.Close(ff, 3)
+				fl.addDerived(ff, okAtom.Negate())
 			}
 			if fail == nil {
 				fail = ff
